@@ -9,7 +9,7 @@ import harness
 from facts import norm, call_name, short, subnodes, lit_value
 from prov import Prov, has_field, has_call
 from templates import iterator_reuse, enclosing_contexts, inlined, scope_fns
-from c03 import (KindEval, TooComplex, MProv, V, B_TRUE, B_FALSE, role_fn, decide, guard_exprs, ev_calls, ev_ctors, all_args, core_roles,
+from c03 import (directed, KindEval, TooComplex, MProv, V, B_TRUE, B_FALSE, role_fn, decide, guard_exprs, ev_calls, ev_ctors, all_args, core_roles,
                  same_job, source_nodes, verdict_of, anchors_present, _sig, T_TYPE, T_TYPEDEF, T_VALUE)
 
 CK = "nitrogql_checker::"
@@ -82,22 +82,24 @@ def r04a(P, R):
             missing = want_all & rej
             extra = acc - want_all
             verdict = False if (missing or extra) else (True if not unk else None)
-            decide(R, "R04-a", "scalar:" + name, verdict,
-                   "%s accepts %s (+null)" % (name, sorted(want)),
+            dev = "both" if (missing and extra) else ("strict" if missing else "lenient")
+            decide(R, "R04-a", "scalar:" + name, verdict, dev=dev, ok_msg=
+                   "%s accepts %s (+null)" % (name, sorted(want)), bad_msg=
                    "literal kinds accepted for %s are %s; input coercion (spec §3.5) accepts %s plus null: %s"
                    % (name, sorted(acc), sorted(want), ("rejects valid " + str(sorted(missing))) if missing else ("accepts invalid " + str(sorted(extra)))),
-                   "the verdict for %s literals %s could not be evaluated" % (name, sorted(unk)), loc=f.loc())
+                   und_msg="the verdict for %s literals %s could not be evaluated" % (name, sorted(unk)), loc=f.loc())
         acc, rej, unk = literal_row(P, f, ti, vi, "Scalar", seeds=[("str", ("s", "\x00a scalar the schema defines"))])
         decide(R, "R04-a", "scalar:custom", False if rej else (True if not unk else None),
                "custom scalars accept any literal (their coercion is server-defined)",
-               "custom scalars reject literals of kind %s" % sorted(rej), "the verdict for custom scalars could not be evaluated", loc=f.loc())
+               "custom scalars reject literals of kind %s" % sorted(rej), "the verdict for custom scalars could not be evaluated", loc=f.loc(), dev="strict")
         # enum row
         acc, rej, unk = literal_row(P, f, ti, vi, "Enum")
         want_all = {"NullValue", "EnumValue"}
         verdict = False if ((want_all & rej) or (acc - want_all)) else (True if not unk else None)
         decide(R, "R04-a", "enum-literals", verdict, "enum types accept enum literals and null",
                "enum typing accepts %s and rejects %s; it must accept exactly {EnumValue, NullValue}" % (sorted(acc), sorted(rej)),
-               "the verdict for enum literals %s could not be evaluated" % sorted(unk), loc=f.loc())
+               "the verdict for enum literals %s could not be evaluated" % sorted(unk), loc=f.loc(),
+               dev="both" if ((want_all & rej) and (acc - want_all)) else ("strict" if (want_all & rej) else "lenient"))
     # missing optional input field is fine: RequiredFieldNotSpecified only if non-null AND no default
     IV = "graphql_type_system::definitions::InputValue"
     if anchors_present(P, R, "R04-a", "input-object-required", [(IV, "default_value")], ["is_nonnull"], loc=f.loc()):
@@ -180,7 +182,7 @@ def r04b(P, R):
         _, paths = run("Named", "IntValue")
         decide(R, "R04-b", "wrapper-kinds", any(ev_calls(evs, ivc.path) for _, evs, _ in paths) if paths else None,
                "a literal for a named type is typed against the type's definition",
-               "check_value never calls is_value_compatible_type_def for a named type", "no path evaluated", loc=f.loc())
+               "check_value never calls is_value_compatible_type_def for a named type", "no path evaluated", loc=f.loc(), dev="lenient")
         for wrapper, wantd in (("NonNull", {"NullValue": "mismatch", "*": "recurse"}),
                                ("List", {"ListValue": "recurse", "NullValue": "ok", "*": "recurse"})):
             for vk in VALUE_KINDS:
@@ -191,7 +193,10 @@ def r04b(P, R):
                        "%s x %s -> %s" % (wrapper, vk, got),
                        "check_value decides (%s type, %s literal) as `%s`; input coercion requires `%s` (%s)"
                        % (wrapper, vk, got, exp, "null is valid for any nullable type; a non-list value coerces to a one-element list"),
-                       "the paths of check_value for (%s type, %s literal) disagree (%d paths)" % (wrapper, vk, len(paths)), loc=f.loc())
+                       "the paths of check_value for (%s type, %s literal) disagree (%d paths)" % (wrapper, vk, len(paths)), loc=f.loc(),
+                       # reporting a mismatch (or re-checking null against the item type) where none is due rejects valid input;
+                       # not reporting / not descending where it is due accepts invalid input
+                       dev="strict" if (got == "mismatch" or (exp == "ok" and got == "recurse")) else "lenient")
         # a literal for a named type is a mismatch iff the definition-level check says "incompatible": notes it returns along
         # only decorate the report.  Reading them for the verdict is harmless as long as notes come with "incompatible" only
         named_verdict(P, R, f, ivc, family, vi, ti)
@@ -288,8 +293,8 @@ def named_verdict(P, R, f, ivc, family, vi, ti):
                 if any(y.get("k") == "Path" and y.get("local") in note_locals for y in source_nodes(P, provs[fn.path], node, depth=0)):
                     reads_notes = True
     witness = notes_while_compatible(P, ivc) if reads_notes else None
-    R.check("R04-b", "named-verdict", not (reads_notes and witness),
-            "a literal for a named type is reported iff the definition-level check finds it incompatible",
+    decide(R, "R04-b", "named-verdict", not (reads_notes and witness), dev="strict", ok_msg=
+            "a literal for a named type is reported iff the definition-level check finds it incompatible", bad_msg=
             "check_value also reports TypeMismatch when is_value_compatible_type_def returns notes, and for a %s type and a %s literal it can "
             "return a note (%s) together with a *compatible* verdict: a valid literal is reported as a type mismatch"
             % ((witness or ("?", "?", []))[0], (witness or ("?", "?", []))[1], ", ".join((witness or ("", "", []))[2]) or "an entry"), loc=f.loc())
@@ -328,8 +333,8 @@ def r04c(P, R):
         pv = MProv(caller)
         loc_arg = all_args(call)[ei]
         a = pv.deep_atoms(loc_arg)
-        R.check("R04-c", "variable-default-considered", has_field(a, VD, "default_value"),
-                "the variable's default value takes part in IsVariableUsageAllowed",
+        decide(R, "R04-c", "variable-default-considered", has_field(a, VD, "default_value"), dev="strict", ok_msg=
+                "the variable's default value takes part in IsVariableUsageAllowed", bad_msg=
                 "the location type handed to check_type_compatibility never depends on VariableDefinition.default_value: a nullable variable "
                 "with a default cannot be allowed in a non-null position", loc=caller.loc())
         # only a *non-null* default relaxes, and only for a nullable variable in a non-null location: something in the computation
@@ -338,7 +343,9 @@ def r04c(P, R):
         null_test = any((y.get("k") == "MethodCall" and y.get("method") == "is_null") or norm(y.get("ctor_of") or "").endswith("value::Value::NullValue")
                         for y in nodes)
         nullable_test = has_field(a, VD, "type")
-        R.check("R04-c", "variable-default-nonnull", null_test and nullable_test, "relaxation requires a non-null default and a nullable variable type",
+        # a relaxation that applies too often lets incompatible usages through
+        decide(R, "R04-c", "variable-default-nonnull", null_test and nullable_test, dev="lenient",
+               ok_msg="relaxation requires a non-null default and a nullable variable type", bad_msg=
                 "the default-value relaxation does not test %s"
                 % " and ".join(w for w, ok in (("`default is not null`", null_test), ("`variable type is nullable`", nullable_test)) if not ok),
                 loc=caller.loc())
@@ -391,7 +398,10 @@ def r04c(P, R):
         decide(R, "R04-c", "compat:(expected %s, variable %s)" % (ek, vk), verdict, "-> %s" % want,
                "check_type_compatibility decides (location %s, variable %s) with `%s`; AreTypesCompatible requires `%s`"
                % (ek, vk, "/".join(got), want),
-               "the action for (location %s, variable %s) could not be evaluated (%s)" % (ek, vk, "/".join(got) or "no path"), loc=g.loc())
+               "the action for (location %s, variable %s) could not be evaluated (%s)" % (ek, vk, "/".join(got) or "no path"), loc=g.loc(),
+               # `false` where the spec compares: valid usages rejected; comparing / `true` where the spec says false: invalid accepted;
+               # a different recursion (swapped or partly stripped arguments) errs both ways
+               dev=("lenient" if want == "false" else ("strict" if got == ["false"] else ("lenient" if got == ["true"] else "both"))))
 
 
 SELECT_ONE = {"find", "rfind", "find_map", "next", "last", "nth", "first", "position", "rposition", "max_by_key", "min_by_key", "max_by", "min_by"}
@@ -465,7 +475,7 @@ def r04d(P, R):
                             atoms |= E.event_atoms(e, provs)
                             first_only = first_only or first_match_then_test(P, provs[fn.path], node)
                 if first_only:
-                    R.violated("R04-d", key, "fragment applicability for (scope %s, condition %s) is decided by `.%s(<membership test>)` followed by `.%s(..)` "
+                    decide(R, "R04-d", key, False, dev="strict", ok_msg="", bad_msg="fragment applicability for (scope %s, condition %s) is decided by `.%s(<membership test>)` followed by `.%s(..)` "
                                "on the element found: only the first candidate (in schema order) that passes the first test is asked the second "
                                "question, where the overlap test must ask whether *any* candidate passes both — a valid spread is rejected when a "
                                "later candidate is the common one" % (a, b, first_only[0], first_only[1]), loc=f.loc())
@@ -473,8 +483,9 @@ def r04d(P, R):
                 if not anchors_present(P, R, "R04-d", key, [(TSD + adt, fld) for adt, fld in want_reads[(a, b)]], loc=f.loc()):
                     continue
                 reads_ok = all(any(x[0] == "field" and x[1] == TSD + adt and x[2] == fld for x in atoms) for adt, fld in want_reads[(a, b)])
-                R.check("R04-d", key, bool(reporting) and bool(silent) and reads_ok,
-                        "dedicated overlap test on %s" % [w[1] for w in want_reads[(a, b)]],
+                decide(R, "R04-d", key, bool(reporting) and bool(silent) and reads_ok,
+                       dev=("lenient" if not reporting else ("strict" if not silent else "both")),
+                       ok_msg="dedicated overlap test on %s" % [w[1] for w in want_reads[(a, b)]], bad_msg=
                         "fragment applicability for (scope %s, condition %s) %s: %s"
                         % (a, b, "has no path that reports FragmentConditionNeverMatches" if not reporting else
                            ("reports FragmentConditionNeverMatches on every path" if not silent else
@@ -535,16 +546,33 @@ def r04d(P, R):
     decide(R, "R04-d", "inline-no-condition", verdict, "`... { }` without type condition is checked against the enclosing type",
            "an inline fragment without type condition is not checked against the enclosing type", und, loc=g.loc())
     fns = [x for x in P.fns.values() if x.path.startswith((CK + "operation_checker", CK + "common", CK + "types"))]
-    n = iterator_reuse(P, R, "R04-d", fns)
-    R.holds("R04-d", "iter-reuse:none", "%d iterator locals in the checker, none consumed by two partial consumers" % n)
+    if getattr(R, "direction", None) == "lenient":
+        # a second partial consumer sees fewer elements: an existing overlap is missed, a valid spread rejected — C04's direction
+        R.holds("R04-d", "iter-reuse:none", "iterator reuse under-approximates the overlap: decided under C04")
+    else:
+        n = iterator_reuse(P, R, "R04-d", fns)
+        R.holds("R04-d", "iter-reuse:none", "%d iterator locals in the checker, none consumed by two partial consumers" % n)
+
+
+def threshold_dev(forms):
+    """a bound above "more than one" lets two root fields through (lenient); a bound below it rejects a single one (strict)"""
+    try:
+        op, n = forms[0]
+        n = int(n)
+        least = n + 1 if op == ">" else (n if op == ">=" else None)     # smallest count reported
+        if least is None:
+            return "both"
+        return "lenient" if least > 2 else ("strict" if least < 2 else "both")
+    except Exception:
+        return "both"
 
 
 def r04e(P, R):
     """__typename is selectable; subscriptions: one root field counted through fragments"""
     d = role_fn(P, "nitrogql_semantics::direct_fields_of_output_type::get_typename_meta_field")
     lits = [x.get("v") for x in d.walk() if x.get("k") == "Lit" and x.get("lk") == "str"]
-    R.check("R04-e", "typename-meta-field", "__typename" in lits and "String" in lits, "__typename: String! meta field",
-            "the __typename meta field is not defined as `__typename: String!`", loc=d.loc())
+    decide(R, "R04-e", "typename-meta-field", "__typename" in lits and "String" in lits, "__typename: String! meta field",
+           "the __typename meta field is not defined as `__typename: String!`", loc=d.loc(), dev="strict")
     c = P.fn(CK + "operation_checker::count_selection_set_fields::selection_set_has_more_than_one_fields")
     cmp_ = [x for x in c.walk() if x.get("k") == "Binary" and x.get("op") in (">", ">=", "!=", "==", "<", "<=")]
     # "more than one": n > 1, n >= 2, 1 < n, 2 <= n
@@ -560,7 +588,8 @@ def r04e(P, R):
     if len(forms) == 1 and len(cmp_) == 1:
         verdict = forms[0] in good if forms[0][0] in (">", ">=", "<", "<=", "==", "!=") else None
     decide(R, "R04-e", "subscription-threshold", verdict, "more than one root field", "the single-root-field rule compares with %s" % forms,
-           "the comparison(s) %s in %s are not of a form this rule reads" % ([x["op"] for x in cmp_], short(c.path)), loc=c.loc())
+           "the comparison(s) %s in %s are not of a form this rule reads" % ([x["op"] for x in cmp_], short(c.path)), loc=c.loc(),
+           dev=threshold_dev(forms))
 
 
 def field_writes(P, adt, field):
@@ -670,7 +699,7 @@ def r04f(P, R):
             by_pos = [y for y in seen_nodes if y.get("k") == "Binary" and y.get("op") in ("<", ">", "<=", ">=")
                       and any(peel_pos(s) for s in (y["l"], y["r"]))]
             if by_pos and pos_order_ignores_file(P):
-                R.violated("R04-f", "earlier-definition:" + variant, "the search that decides %s orders definitions by comparing their `Pos` (`%s`); Pos "
+                decide(R, "R04-f", "earlier-definition:" + variant, False, dev="lenient", ok_msg="", bad_msg="the search that decides %s orders definitions by comparing their `Pos` (`%s`); Pos "
                            "ordering looks at line and column only, and an operation document contains fragments imported from other files: two "
                            "definitions of one name at the same line:column of different files are neither earlier than the other, so the "
                            "duplicate is not reported" % (variant, by_pos[0].get("op")), loc=e0.loc())
@@ -684,7 +713,7 @@ def r04f(P, R):
                    "%s compares names of %s only" % (variant, own.split("::")[-1]),
                    "%s is raised by a search that also compares against the names of %s: `fragment User ...` followed by `query User ...` "
                    "is rejected although operations and fragments live in separate name spaces" % (variant, other.split("::")[-1]),
-                   "the search that decides %s reads no definition name the rule can see" % variant, loc=e0.loc())
+                   "the search that decides %s reads no definition name the rule can see" % variant, loc=e0.loc(), dev="strict")
     index_agreement(P, R, "R04-f", e, "check_operation_document")
     uniqueness_scopes(P, R, "R04-f")
 
@@ -794,7 +823,10 @@ def index_agreement(P, R, rule, g, what):
                     if s_place == e_place and set(s_ads) & LOSSY_SEQ:
                         verdict = sorted(set(s_ads) & LOSSY_SEQ)
             if verdict:
-                R.violated(rule, key, "%s: an index counted by enumerating one sequence is used to cut another one that was built from it with `.%s(..)`: "
+                # a prefix cut (`take`) of a *selection* of the enumerated sequence reaches at least as far as intended: it never
+                # misses an earlier element, it adds later ones (the element itself) — spurious matches only
+                dev = "strict" if (y.get("k") == "MethodCall" and y.get("method") == "take" and set(verdict) <= {"filter", "filter_map"}) else "both"
+                decide(R, rule, key, False, dev=dev, ok_msg="", bad_msg="%s: an index counted by enumerating one sequence is used to cut another one that was built from it with `.%s(..)`: "
                            "the two number their elements differently, so the cut reaches the wrong elements (a definition is compared with "
                            "itself, or an earlier one is missed)" % (g.path, "/".join(verdict)), loc=g.loc())
             else:
@@ -802,77 +834,114 @@ def index_agreement(P, R, rule, g, what):
     return n
 
 
-# the scope within which each "already seen" name set must live (GraphQL spec: variable names are unique per operation 5.8.1,
-# non-repeatable directives per location 5.7.3): diagnostic -> parameter types of the functions that work on ONE such scope
+# the unit within which each "already seen" name set must live (GraphQL spec: variable names are unique per operation 5.8.1,
+# non-repeatable directives per location 5.7.3): diagnostic -> does a loop over elements of this type step from one unit to the next?
+def _steps_variables(P, t):
+    return any(x in t for x in (A + "operation::ExecutableDefinition", A + "operation::OperationDefinition"))
+
+
+def _steps_directive_lists(P, t):
+    """a loop over things that each carry their own list of directives (variable definitions, selections, definitions)"""
+    for ap, adt in P.adts.items():
+        if ap.startswith(A) and ap in t and ap != A + "directive::Directive":
+            if adt.kind == "Struct" and "directives" in adt.fields():
+                return True
+            if adt.kind == "Enum" and ap.split("::")[-1] in ("Selection", "ExecutableDefinition", "TypeSystemDefinition"):
+                return True
+    return False
+
+
 UNIQUENESS_SCOPE = {
-    "DuplicatedVariableName": ("operation", (A + "variable::VariablesDefinition", A + "operation::OperationDefinition")),
-    "RepeatedDirective": ("directive list", (A + "directive::Directive",)),
+    "DuplicatedVariableName": ("operation", _steps_variables),
+    "RepeatedDirective": ("directive list", _steps_directive_lists),
 }
 _SEEN_QUERY = {"contains", "insert", "get", "contains_key", "entry", "binary_search", "replace"}
 
 
+def _base_local(b):
+    while b.get("k") in ("AddrOf", "DropTemps", "MethodCall", "Index") or (b.get("k") == "Unary" and b.get("op") == "Deref"):
+        b = b["recv"] if b.get("k") == "MethodCall" else b["e"]
+    return b.get("local") if b.get("k") == "Path" else None
+
+
 def uniqueness_scopes(P, R, rule):
-    """The collection of names consulted before a duplicate is reported must be created once per scope of the uniqueness rule:
-    inside a function that handles one such scope (or inside the loop over the scopes).  A collection created once per document
-    and handed down makes a name used in one operation a duplicate in the next."""
+    """The collection of names consulted before a duplicate is reported must not outlive one unit of the uniqueness rule.  Followed
+    from the guard of the report through `&mut` parameters to every place that creates it: VIOLATED when, between the creation and
+    the use (or the call that hands it down), there is a loop that steps from one unit to the next — one operation to the next for
+    variable names, one directive list to the next for directives — and the collection is not emptied inside that loop: names seen
+    in one unit are then duplicates in the next."""
     from c03 import checker_scope, call_sites
     scope = [P.fns[p] for p in checker_scope(P) if P.fns[p].kind in ("Fn", "AssocFn")]
-    for variant, (what, per_scope_types) in sorted(UNIQUENESS_SCOPE.items()):
+    for variant, (what, steps) in sorted(UNIQUENESS_SCOPE.items()):
         key = "scope:" + variant
-        found = None
+        starts = []
         for f in scope:
-            sites = [i for i, (x, _) in enumerate(f.nodes()) if x.get("k") == "Struct" and "rest" not in x and norm(x.get("variant", "")).endswith("::" + variant)]
-            for i in sites:
-                for ge in guard_exprs(f, i):
-                    for src_n in source_nodes(P, MProv(f), ge, depth=0):
-                        if src_n.get("k") == "MethodCall" and src_n.get("method") in _SEEN_QUERY:
-                            b = src_n["recv"]
-                            while b.get("k") in ("AddrOf", "DropTemps", "MethodCall") or (b.get("k") == "Unary" and b.get("op") == "Deref"):
-                                b = b["recv"] if b.get("k") == "MethodCall" else b["e"]
-                            if b.get("k") == "Path" and "local" in b:
-                                found = found or (f, b["local"])
-        if found is None:
+            for i, (x, _) in enumerate(f.nodes()):
+                if x.get("k") == "Struct" and "rest" not in x and norm(x.get("variant", "")).endswith("::" + variant):
+                    for ge in guard_exprs(f, i):
+                        for src_n in source_nodes(P, MProv(f), ge, depth=0):
+                            if src_n.get("k") == "MethodCall" and src_n.get("method") in _SEEN_QUERY:
+                                lid = _base_local(src_n["recv"])
+                                if lid is not None:
+                                    j = [k for k, (y, _) in enumerate(f.nodes()) if y is src_n]
+                                    starts.append((f, lid, j[0] if j else i))
+        if not starts:
             continue
-        # follow the collection to where it is created
-        f, lid = found
-        verdict, why = None, "where the set of seen names is created was not found"
-        for _ in range(5):
+        verdicts, why = [], ""
+        todo, seen = list(starts[:1]), set()
+        while todo:
+            f, lid, use_idx = todo.pop()
+            if (f.path, lid) in seen or len(seen) > 12:
+                continue
+            seen.add((f.path, lid))
             pidx = [j for j, p in enumerate(f.params) if p.get("k") == "Binding" and p["local"] == lid]
-            if not pidx:
-                # a local of f
-                lets = [j for j, (x, _) in enumerate(f.nodes()) if x.get("k") == "Let" and x["pat"].get("k") == "Binding" and x["pat"]["local"] == lid]
-                per_scope = any(any(t in s for t in per_scope_types) for s in _sig(f))
-                in_loop = bool(lets) and any(cx[0] == "loop" for cx in enclosing_contexts(f, lets[0]))
-                whole_doc = any((A + "operation::OperationDocument") in s for s in _sig(f))
-                if per_scope or in_loop:
-                    verdict = True
-                elif whole_doc and lets:
-                    verdict, why = False, short(f.path)
-                break
-            sites = [(h, c) for h, _, c in call_sites(scope, f.path) if h.path != f.path]
-            if len(sites) != 1:
-                break
-            h, c = sites[0]
-            a = all_args(c)[pidx[0]] if pidx[0] < len(all_args(c)) else None
-            while a is not None and (a.get("k") in ("AddrOf", "DropTemps") or (a.get("k") == "Unary" and a.get("op") == "Deref")):
-                a = a["e"]
-            if a is None or a.get("k") != "Path" or "local" not in a:
-                break
-            f, lid = h, a["local"]
-        decide(R, rule, key, verdict, "the names already seen are collected per %s" % what,
-               "the collection consulted before %s is reported is created once per document in %s, outside the loop over the definitions, and "
-               "handed down to every %s: a name used in one %s is reported as a duplicate (or hides one) in the next" % (variant, why, what, what),
-               why)
+            if pidx:
+                sites = [(h, j, c) for h, j, c in call_sites(scope, f.path) if h.path != f.path]
+                if not sites:
+                    verdicts.append(None)
+                for h, j, c in sites:
+                    a = all_args(c)[pidx[0]] if pidx[0] < len(all_args(c)) else None
+                    hl = _base_local(a) if a is not None else None
+                    if hl is None:
+                        verdicts.append(None)
+                    else:
+                        todo.append((h, hl, j))
+                continue
+            # a local of f: loops around the use (or hand-over) that do not contain its creation
+            lets = [j for j, (x, _) in enumerate(f.nodes()) if x.get("k") == "Let" and x["pat"].get("k") == "Binding" and x["pat"]["local"] == lid]
+            if not lets:
+                verdicts.append(None)
+                continue
+            let_loops = {id(cx[1]) for cx in enclosing_contexts(f, lets[0]) if cx[0] == "loop"}
+            crossing = [cx[1] for cx in enclosing_contexts(f, use_idx) if cx[0] == "loop" and id(cx[1]) not in let_loops]
+            bad = None
+            for lp in crossing:
+                # element type of the loop: the binding of the `Some(..)` arm of the desugared `for`
+                elems = [str(q.get("t") or "") for arm in subnodes(lp) if arm.get("k") == "Arm" for q in subnodes(arm["pat"]) if q.get("k") == "Binding"][:3]
+                cleared = any(y.get("k") == "MethodCall" and y.get("method") in ("clear", "truncate", "drain") and _base_local(y["recv"]) == lid for y in subnodes(lp))
+                if any(steps(P, norm(t)) for t in elems) and not cleared:
+                    bad = lp
+            if bad is not None:
+                verdicts.append(False)
+                why = short(f.path)
+            else:
+                verdicts.append(True)
+        v = False if False in verdicts else (None if (None in verdicts or not verdicts) else True)
+        decide(R, rule, key, v, "the names already seen are collected per %s" % what,
+               "the collection consulted before %s is reported is created in %s outside a loop that goes from one %s to the next, and is not "
+               "emptied in between: a name seen in one %s is reported as a duplicate in the next" % (variant, why, what, what),
+               "where the set of seen names is created was not found on every route", dev="strict")
 
 
 def _r03c(P, R):
     # every check_directives site uses exactly the spec location of the position its directives come from (shared with C03:
     # a wrong location both misses misplaced directives and rejects correctly placed ones)
     from c03 import r03c
-    r03c(P, R, only_locations=True)
+    r03c(P, R)
 
 
-RULES = [("R04-a", r04a), ("R04-b", r04b), ("R04-c", r04c), ("R04-d", r04d), ("R04-e", r04e), ("R04-f", r04f), ("R03-c", _r03c)]
+RULES = [(rid, directed(fn, "strict")) for rid, fn in
+         [("R04-a", r04a), ("R04-b", r04b), ("R04-c", r04c), ("R04-d", r04d), ("R04-e", r04e), ("R04-f", r04f), ("R03-c", _r03c)]]
 EXPLANATION = (
     "False-alarm freedom decided on finite tables read out of the code by abstract evaluation over kinds and compared with the GraphQL "
     "spec: (R04-a) literal kinds accepted per built-in scalar (Int literal for Float/ID), enum and input-object rows, required-ness = "
